@@ -49,7 +49,7 @@ SPECS = [
 ]
 def H(name, defs, tier='quick'):
     return Harness(name, 'h_escape_string', enforce='escape_string', replace=['to_codepoint'], loop_contracts=True, method='LC', props=['C01', 'C08'],
-                   expect_classes={'loop_invariant_step': 1}, timeout=1800, solver='cadical', defines=defs, split=True, tier=tier,
+                   expect_classes={'loop_invariant_step': 1}, timeout=2400, solver='cadical', defines=defs, split=True, tier=tier, jobs=4, mem_gb=14,
                    note='option combination fixed by ' + ','.join(defs))
 HARNESSES = [
     Harness('to_hex_character', 'h_hex', enforce='to_hex_character', method='LF', props=['C01', 'C08']),
